@@ -205,3 +205,71 @@ def writer_sides_independent(rep, oid: str, required: bool = True):
     rep.ob(oid, "R5", fi, (not bad) if n else None, alpha(bad[0][0], fi.node)[:80] if bad else f"{n} add_edge call(s)",
            "reactant arcs and product arcs of a reaction are written independently (a species on both sides gets both arcs)" +
            (f": this arc is written only when `{bad[0][1]}` fails" if bad else ""), node=bad[0][0] if bad else fi.node)
+
+
+def view_is_complete(rep, oid: str):
+    """what the CRN analyses read is the network itself: (a) the bipartite writer exports every stored reaction (no filter / early exit in its reaction
+    loop), (b) `_as_bipartite` hands an input that already is a directed (multi-)graph through unchanged - it is returned as is or through nx.DiGraph(..)
+    of an undirected graph - and otherwise the writer's export; a rebuilt copy of a MultiDiGraph merges parallel arcs (coefficients written as repeated
+    arcs are lost)."""
+    import ast as _ast
+    from ..core import call_name, norm, parent_map, walk_local
+    from ..facts import guards_of, returns_of
+    CV = "synkit/CRN/Hypergraph/conversion.py"
+    w = rep.f(CV, "hypergraph_to_bipartite")
+    Hw = w.params[0]
+    items = [l for l in walk_local(w.node) if isinstance(l, _ast.For) and f"{Hw}.edges.items()" in norm(l.iter)]
+    cut = [n for l in items for n in walk_local(l) if isinstance(n, (_ast.Continue, _ast.Break))]
+    rep.ob(oid, "R3b", w, len(items) == 1 and not cut, cut[0] if cut else (items[0].iter if items else "for"), "every stored reaction is exported to the bipartite view", node=cut[0] if cut else w.node)
+    asb = rep.f(CV, "_as_bipartite")
+    pm = parent_map(asb.node)
+    P = asb.params[0]
+    for r in [r for r in returns_of(asb.node) if r.value is not None]:
+        leaves = []
+
+        def _lv(e):
+            if isinstance(e, _ast.IfExp):
+                _lv(e.body)
+                _lv(e.orelse)
+            else:
+                leaves.append(e)
+        _lv(r.value)
+        for leaf in leaves:
+            if isinstance(leaf, _ast.Name) and leaf.id == P:
+                ok = True
+            elif isinstance(leaf, _ast.Call) and call_name(leaf) == "hypergraph_to_bipartite":
+                ok = True
+            elif isinstance(leaf, _ast.Call) and norm(leaf.func) in ("nx.DiGraph", "DiGraph") and leaf.args and norm(leaf.args[0]) == P:
+                ok = True
+            else:
+                ok = None if isinstance(leaf, (_ast.Call, _ast.Name)) else False
+                if isinstance(leaf, (_ast.Call, _ast.Name)):
+                    # a graph rebuilt by some other routine: not understood - unless it is visibly a rebuild into a SIMPLE nx.DiGraph() filled arc by arc
+                    # from the input with no exclusion of multigraph inputs: parallel arcs (coefficients written as repeated arcs) collapse into one
+                    ok = None
+                    if isinstance(leaf, _ast.Name):
+                        from ..core import local_defs as _ld
+                        dd = _ld(asb.node)
+                        built = [d_ for d_ in dd.get(leaf.id, []) if d_.kind == "assign" and isinstance(d_.value, _ast.Call) and norm(d_.value.func) in ("nx.DiGraph", "DiGraph")
+                                 and not d_.value.args]
+                        fills = [c for c in walk_local(asb.node) if isinstance(c, _ast.Call) and call_name(c) == "add_edge" and norm(c.func.value) == leaf.id]
+                        def _asserted(stmt):
+                            """atoms known to hold where stmt runs: (text, holds?)"""
+                            out_ = []
+                            for t_, sn_ in guards_of(pm, stmt, asb.node):
+                                if sn_:
+                                    parts = t_.values if isinstance(t_, _ast.BoolOp) and isinstance(t_.op, _ast.And) else [t_]
+                                    out_ += [(x, True) for x in parts]
+                                else:
+                                    parts = t_.values if isinstance(t_, _ast.BoolOp) and isinstance(t_.op, _ast.Or) else ([t_] if not isinstance(t_, _ast.BoolOp) else [])
+                                    out_ += [(x, False) for x in parts]
+                            res = []
+                            for x, holds in out_:
+                                while isinstance(x, _ast.UnaryOp) and isinstance(x.op, _ast.Not):
+                                    x, holds = x.operand, not holds
+                                res.append((norm(x), holds))
+                            return res
+                        multi_excluded = bool(built) and any(txt.endswith(".is_multigraph()") and holds is False for txt, holds in _asserted(built[0].stmt))
+                        if built and fills and not multi_excluded:
+                            ok = False
+            rep.ob(oid, "R5", asb, ok, leaf, "_as_bipartite returns the caller's directed graph itself, nx.DiGraph(<undirected input>), or the writer's export", node=r)
